@@ -332,7 +332,8 @@ func genURL(r *RNG, s *SchemaSpec) *URLSpec {
 			case 0:
 				u.Params = append(u.Params, QP{"filter", ""})
 			case 1, 2:
-				u.Params = append(u.Params, QP{"filter", r.Pick([]string{"label", "a_label", "a b", "a&b", "x?y", "a#b", "50%", "a+b", "a/b", "é", "{", "\"", "a\\nb", "[1]"})})
+				u.Params = append(u.Params, QP{"filter", r.Pick([]string{"label", "a_label", "a b", "a&b", "x?y", "a#b", "50%", "a+b", "a/b", "é", "{", "\"", "a\\nb", "[1]",
+					`ring\u0007bell`, `del\u007fchar`, `a\\b`, `\"q\"`, `\u00e9`, `\ud83d\ude00`, `tab\tx`, `\u007Bx`, `\u000b`, `\udb40\udc01`, `a\/b`, `<\u003e&`})})
 			case 3:
 				u.Params = append(u.Params, QP{"filter", r.Pick([]string{`{invalid}`, `{"f":1}`, `{"o":"and","v":5}`, `{"o":"or","v":[1]}`, `{}`, `{"f":"a","o":"=","v":"x"} trailing`})})
 			default:
